@@ -591,6 +591,11 @@ func (c *Context) onKilled(message *vivid.OnKilled, behavior vivid.Behavior) {
 
 	v := chain.NewVoid()
 	if c.zombie {
+		// 僵尸仅由针对自身的终止确认释放（显式 Kill 或父级终止均经由 doKill 到达此处）；
+		// 其他 Actor（例如其监听对象）的死亡通知不应使其被释放
+		if !message.Ref.Equals(c.ref) {
+			return
+		}
 		handler.shouldContinue = true
 		handler.prepareSelfKilledMessage()
 		handler.restarting = false
